@@ -37,6 +37,15 @@ CLAIMS = {
               "every expression of three families; the real Compile must reject all. Known deviations are attributed by "
               "specification-computed tags or by the named deviation of the semantics.",
               "DESIGN.md section 6 C03", "TLA+ typing rules + reference semantics; TLC-enumerated typed programs run for real; TLA+ fault injection compiled for real"),
+    "C04": _c("exploration",
+              "Pipeline.tla models Compile/Eval/Run as a machine over stages with the three recover boundaries of the code "
+              "and checks NoEscape on every sensible combination of options, expression class and run-time environment "
+              "(54,560 configurations); each configuration is instantiated with concrete options, sources and environment "
+              "values and executed, and every text of the lexical class alphabets, every single-fault ill-typed program "
+              "and every rejected token sequence is pushed through Parse, Compile and Eval: each call must return exactly "
+              "one of result and error, never panic, never hang. Exploration level: the quantifier over all byte strings is "
+              "covered by class alphabets up to a length bound and by structured stress, not by coverage-guided fuzzing.",
+              "DESIGN.md section 6 C04", "TLA+ pipeline model enumerating option/expression/environment configurations; every configuration and text executed under recover and a watchdog"),
     "C05": _c("model_checking",
               "VM.tla + Compiler.tla model the machine and the code generator; TLC checks on every expression x assignment "
               "that the specified compiler's program is well-formed, never underflows and exits clean, also with a small "
